@@ -3,7 +3,7 @@
    unlocked deposits (multi- and single-asset), bank sends, block changes and rejected operations is exactly the initial
    excess plus the tokens sent to it by plain bank sends plus one unit per accepted odd single-asset deposit. *)
 From MD.Model Require Import Base Ownable Epoch PoolMath Types PoolManager FarmManager Chain.
-From MD.Proofs Require Import LockedExcess SingleLockedExcess CreateExcess Tactics Arith PoolMathProofs MapLemmas BankProofs SwapProofs ChainProofs PmProofs PmChainProofs LiquidityProofs
+From MD.Proofs Require Import LockedExcess SingleLockedExcess CreateExcess FarmSideExcess Tactics Arith PoolMathProofs MapLemmas BankProofs SwapProofs ChainProofs PmProofs PmChainProofs LiquidityProofs
   AtomicProofs PoolCustody PoolCustodyChain SingleSided TxBalances TxExcess.
 
 Definition asset_denom (d : string) : Prop := forall id, d <> lp_of_id id.
@@ -16,6 +16,7 @@ Definition covered_op (o : op) : Prop :=
   | Tx sender target m funds =>
       sender <> PM /\
       ((target = EM \/ target = FC) \/        (* the epoch manager and the fee collector: no concern of the pool manager *)
+       (target = FM /\ match m with WFm fm => fm_covered fm | _ => False end) \/     (* claims, positions, farm expansions, configuration *)
       target = PM /\
       match m with
       | WPm (PmSwap _ _ _ r _) | WPm (PmRoute _ _ r _) | WPm (PmProvide _ _ r _ None _) => r <> Some PM
@@ -77,7 +78,7 @@ Proof.
   intros Hc (Hfc & Hfmc & Hlp & Hsmall) Hd. unfold gift.
   destruct o as [b|sender target m funds|from to amount|k]; cbn [step covered_op] in *.
   - cbn [fst snd]. unfold slackP. cbn [w_bank w_pm set_block]. lia.
-  - destruct Hc as (Hs & [Hother | (-> & Hm)]).
+  - destruct Hc as (Hs & [Hother | [(-> & Hfmm) | (-> & Hm)]]).
     { destruct (run_tx w sender target m funds) as [w'|e] eqn:E; cbn [fst snd]; [|rewrite slackP_set_fault; lia].
       rewrite slackP_set_fault, (em_fc_tx_excess _ _ _ _ _ _ Hs Hother E d).
       destruct m as [| |pm|]; try lia. destruct pm; try lia.
@@ -86,6 +87,9 @@ Proof.
       unfold FUEL in Ep. destruct (plain_call _ _ _ _ _ _ _ _ Ep) as (wa & fla & w2 & subs2 & fl2 & _ & Eh & _).
       apply handle_ok_typed in Eh. destruct Eh as (Eh & _ & _). unfold handle_typed in Eh.
       destruct Hother as [->| ->]; cbn [String.eqb EM FC PM FM Ascii.eqb Bool.eqb] in Eh; discriminate. }
+    { destruct m as [| | |fm]; try contradiction.
+      destruct (run_tx w sender FM (WFm fm) funds) as [w'|e] eqn:E; cbn [fst snd]; [|rewrite slackP_set_fault; lia].
+      rewrite slackP_set_fault, (fm_tx_excess _ _ _ _ _ Hs Hfmm E d). lia. }
     destruct (run_tx w sender PM m funds) as [w'|e] eqn:E; cbn [fst snd]; [|rewrite slackP_set_fault; lia].
     rewrite slackP_set_fault.
     destruct m as [| |pm|]; try contradiction.
